@@ -13,11 +13,19 @@ EXTENDS Naturals, Sequences, Bitwise
 
 RcSwap(s, i, j) == [s EXCEPT ![i] = s[j], ![j] = s[i]]
 
+\* Recursion is kept shallow (runs of 16 steps inside an outer recursion): TLC
+\* slows down badly on recursion thousands of levels deep.
+
+\* KSA steps i .. to-1: <<S, j>>
+RECURSIVE RcKsaRun(_, _, _, _, _)
+RcKsaRun(s, key, i, to, j) ==
+  IF i = to THEN <<s, j>>
+  ELSE LET j2 == (j + s[i] + key[(i % Len(key)) + 1]) % 256
+       IN RcKsaRun(RcSwap(s, i, j2), key, i + 1, to, j2)
+
 RECURSIVE RcKsa(_, _, _, _)
 RcKsa(s, key, i, j) ==
-  IF i = 256 THEN s
-  ELSE LET j2 == (j + s[i] + key[(i % Len(key)) + 1]) % 256
-       IN RcKsa(RcSwap(s, i, j2), key, i + 1, j2)
+  IF i = 256 THEN s ELSE LET r == RcKsaRun(s, key, i, i + 16, j) IN RcKsa(r[1], key, i + 16, r[2])
 
 \* key: 1..256 bytes
 RcInit(key) == [s |-> RcKsa([x \in 0..255 |-> x], key, 0, 0), i |-> 0, j |-> 0]
@@ -29,11 +37,18 @@ RcStep(g) ==
       s2 == RcSwap(g.s, i2, j2)
   IN <<[s |-> s2, i |-> i2, j |-> j2], s2[(s2[i2] + s2[j2]) % 256]>>
 
-\* n further keystream bytes: [g |-> generator afterwards, ks |-> bytes]
+\* n further keystream bytes appended to acc: [g |-> generator afterwards, ks |-> bytes]
+RECURSIVE RcRun(_, _, _)
+RcRun(g, n, acc) ==
+  IF n = 0 THEN [g |-> g, ks |-> acc]
+  ELSE LET r == RcStep(g) IN RcRun(r[1], n - 1, Append(acc, r[2]))
+
 RECURSIVE RcGen(_, _, _)
 RcGen(g, n, acc) ==
   IF n = 0 THEN [g |-> g, ks |-> acc]
-  ELSE LET r == RcStep(g) IN RcGen(r[1], n - 1, Append(acc, r[2]))
+  ELSE LET k == IF n < 16 THEN n ELSE 16
+           r == RcRun(g, k, <<>>)
+       IN RcGen(r.g, n - k, acc \o r.ks)
 
 \* one-shot encryption = decryption with a fresh generator
 Rc4Apply(key, data) ==
